@@ -155,6 +155,22 @@ class WeightInterp:
             res = []
             for s2, f2 in outs:
                 self.record_reads(value, fn, s2, f2)
+                # a local holding the current total mass: `total = np_sum(self.model_weights)` - fresh until the
+                # weights are written again
+                fresh_sum = None
+                if isinstance(a, ast.Assign) and isinstance(tg, ast.Name) and isinstance(value, ast.Call) and ((call_name(value) in SUM_FUNCS and value.args and unparse(value.args[0]) == f"self.{W}") or (isinstance(value.func, ast.Attribute) and value.func.attr == "sum" and unparse(value.func.value) == f"self.{W}")):
+                    fresh_sum = tg.id
+                writes_w = (isinstance(tg, ast.Attribute) and tg.attr == W) or (isinstance(tg, ast.Subscript) and isinstance(tg.value, ast.Attribute) and tg.value.attr == W)
+                by_fresh_sum = isinstance(a, ast.Assign) and isinstance(value, ast.BinOp) and isinstance(value.op, ast.Div) and unparse(value.left) == f"self.{W}" and isinstance(value.right, ast.Name) and f2.get(f"sum:{value.right.id}") is True
+                by_fresh_sum = by_fresh_sum or (isinstance(a, ast.AugAssign) and isinstance(a.op, ast.Div) and isinstance(value, ast.Name) and f2.get(f"sum:{value.id}") is True)
+                if writes_w:
+                    f2 = {k: v for k, v in f2.items() if not k.startswith("sum:")}
+                if fresh_sum is not None:
+                    f2 = dict(f2)
+                    f2[f"sum:{fresh_sum}"] = True
+                if isinstance(tg, ast.Attribute) and tg.attr == W and isinstance(tg.value, ast.Name) and tg.value.id == "self" and by_fresh_sum:
+                    res.append(("N", tuple(sorted(f2.items()))))
+                    continue
                 if isinstance(tg, ast.Attribute) and tg.attr == W and isinstance(tg.value, ast.Name) and tg.value.id == "self":
                     if isinstance(a, ast.AugAssign):
                         s3 = "R"
@@ -279,7 +295,16 @@ def rule_r1_r2(chk, p, t):
         def three(cls=cls, m=m):
             cfg = cfg_of(m)
             resets = [n for n in cfg.nodes if n.kind == "cond" and "fpe_equals(0.0" in unparse(n.ast)]
-            norms = [n for n in cfg.nodes if n.kind == "stmt" and isinstance(n.ast, ast.Assign) and unparse(n.ast.targets[0]) == f"self.{W}" and normalising_form(n.ast.value, m)]
+            def _sum_var_div(v):
+                if not (isinstance(v, ast.BinOp) and isinstance(v.op, ast.Div) and unparse(v.left) == f"self.{W}" and isinstance(v.right, ast.Name)):
+                    return False
+                ds = [x.value for x in walk_no_nested(m.node) if isinstance(x, ast.Assign) and len(x.targets) == 1 and isinstance(x.targets[0], ast.Name) and x.targets[0].id == v.right.id]
+                return bool(ds) and all(isinstance(d, ast.Call) and call_name(d) in SUM_FUNCS and d.args and unparse(d.args[0]) == f"self.{W}" for d in ds)
+
+            norms = [n for n in cfg.nodes if n.kind == "stmt" and isinstance(n.ast, ast.Assign) and unparse(n.ast.targets[0]) == f"self.{W}" and (normalising_form(n.ast.value, m) or _sum_var_div(n.ast.value))]
+            if not resets:
+                # the reset test may read the total mass through such a local: fpe_equals(0.0, total)
+                resets = [n for n in cfg.nodes if n.kind == "cond" and "fpe_equals(" in unparse(n.ast) and ("0.0" in unparse(n.ast))]
             cons = f"{cls.qualname}.update:zero-mass"
             if resets and norms and all(cfg.must_pass(nm.id, via_nodes=[rs.id for rs in resets]) for nm in norms):
                 r1.ok(cons, "zero total mass is reset to uniform before dividing", m.loc())
@@ -332,15 +357,39 @@ def rule_r3(chk, p, t):
             if guard is None:
                 r.violation(cons, "unguarded-removal", "a model can be removed when it is the last one: at least one model must always remain", m.loc(c))
                 return
+            # a removal inside a loop must be guarded inside that loop: a test made once before the loop says nothing
+            # about the second removal
+            from rsa.util import parents_map as _pm
+
+            pmap = _pm(m.node)
+
+            def loops_of(x):
+                out = []
+                while x in pmap:
+                    x = pmap[x]
+                    if isinstance(x, (ast.For, ast.While)):
+                        out.append(x)
+                return out
+
+            lp_pop = loops_of(c)
+            g_ast = guard.ast
+            holder = next((n for n in ast.walk(m.node) if isinstance(n, (ast.If, ast.While)) and any(x is g_ast for x in ast.walk(n.test))), None)
+            lp_guard = loops_of(holder) if holder is not None else []
+            if lp_pop and lp_pop[0] not in lp_guard:
+                r.violation(cons, "guard-outside-loop", f"the guard `{unparse(guard.ast)}` is evaluated once, outside the loop that removes the models: the second removal of one call is not guarded, so every model can be removed", m.loc(c))
+                return
             r.ok(cons, f"guarded by `{unparse(guard.ast)}`", m.loc(c))
             # pairing: the enclosing block shrinks all parallel arrays with the same index
             from rsa.util import parents_map
 
             pm = parents_map(m.node)
             cur = c
-            while cur in pm and not isinstance(pm[cur], ast.If):
+            # the statement list that holds the removal: body of the guarding `if`, or - with an early `continue` guard -
+            # the body of the loop itself
+            while cur in pm and not isinstance(pm[cur], (ast.If, ast.For, ast.While)):
                 cur = pm[cur]
-            blk = pm[cur].body if cur in pm else []
+            par = pm.get(cur)
+            blk = (par.body if cur in getattr(par, "body", []) else getattr(par, "orelse", [])) if par is not None else []
             idx = unparse(c.args[0]) if isinstance(c, ast.Call) and c.args else None
             shr = {}
             for s in blk:
@@ -593,33 +642,74 @@ def rule_r4(chk, p, t):
     af = p.cls(AF)
     cu = af.methods.get("_compileUpdateStep")
 
+    def _mixture_accumulations(fn):
+        """Every moment-matched accumulation in `fn`: list of dicts (field, loop, acc statement, ok, why) for the
+        covariance fields pred_p / est_p.  The accumulator may be the field itself or a local that is assigned to the
+        field after the loop; the difference vector may be a local or written inline; one loop may serve both fields."""
+        out = {}
+        body_stmts = list(walk_no_nested(fn.node))
+        loops = [n for n in body_stmts if isinstance(n, ast.For)]
+        for lp in loops:
+            if unparse(lp.iter) != "zip(self.models, self.model_weights)" or not (isinstance(lp.target, ast.Tuple) and len(lp.target.elts) == 2):
+                continue
+            mdl, wt = (unparse(x) for x in lp.target.elts)
+            ldefs = {}
+            for st in lp.body:
+                if isinstance(st, ast.Assign) and len(st.targets) == 1 and isinstance(st.targets[0], ast.Name):
+                    ldefs[st.targets[0].id] = st.value
+            for st in lp.body:
+                if not (isinstance(st, ast.AugAssign) and isinstance(st.op, ast.Add)):
+                    continue
+                acc = unparse(st.target)
+                fld = None
+                if acc in ("self.pred_p", "self.est_p"):
+                    fld = acc.split(".")[1]
+                else:
+                    # a local accumulator handed to the field after the loop
+                    hand = [n for n in body_stmts if isinstance(n, ast.Assign) and unparse(n.value) == acc and unparse(n.targets[0]) in ("self.pred_p", "self.est_p") and n.lineno > lp.lineno]
+                    if len(hand) == 1:
+                        fld = unparse(hand[0].targets[0]).split(".")[1]
+                if fld is None:
+                    continue
+                x = "pred_x" if fld == "pred_p" else "est_x"
+
+                class I(ast.NodeTransformer):
+                    def visit_Name(self, n):
+                        return I().visit(copy_.deepcopy(ldefs[n.id])) if n.id in ldefs else n
+
+                import copy as copy_
+
+                val = I().visit(copy_.deepcopy(st.value))
+                want = f"{wt} * ({mdl}.{fld} + outer({mdl}.{x} - self.{x}, {mdl}.{x} - self.{x}))"
+                ok = canon(val) == canon(ast.parse(want, mode="eval").body)
+                zeros_before = [n for n in body_stmts if isinstance(n, ast.Assign) and unparse(n.targets[0]) == acc and isinstance(n.value, ast.Call) and call_name(n.value) == "zeros" and n.lineno < lp.lineno]
+                out.setdefault(fld, []).append(dict(loop=lp, stmt=st, ok=ok, zero=zeros_before, acc=acc))
+        return out
+
     def f1():
         stk = [n for n in walk_no_nested(cu.node) if isinstance(n, ast.Assign) and isinstance(n.value, ast.Call) and unparse(n.value.func) == "self.stacking_method"]
         require(len(stk) == 1, "stacking_method is not called exactly once", cu.node)
         s = stk[0]
         ok_t = unparse(s.targets[0]) in ("(self.pred_x, self.est_x)", "self.pred_x, self.est_x")
         ok_a = [unparse(a) for a in s.value.args] == ["self.models", "self.model_weights"]
-        loops = [n for n in walk_no_nested(cu.node) if isinstance(n, ast.For) and "self.est_x" in unparse(n)]
-        ok_o = loops and all(lp.lineno > s.lineno for lp in loops)
+        accs = _mixture_accumulations(cu)
+        loops = [a["loop"] for v in accs.values() for a in v]
+        ok_o = bool(loops) and all(lp.lineno > s.lineno for lp in loops)
         if ok_t and ok_a and ok_o:
             r.ok(cu.qualname + ":freshness", "mean <- stacking(models, weights) before the covariance loop", cu.loc(s))
         else:
             r.violation(cu.qualname + ":freshness", f"freshness:{ok_t}:{ok_a}:{bool(ok_o)}", "the mixture covariance is formed about a mean that was not (yet) recomputed from the current weights", cu.loc(s))
-        # covariance formula
-        lp = loops[-1] if loops else None
-        ok_f = False
-        if lp is not None:
-            ok_zip = unparse(lp.iter) == "zip(self.models, self.model_weights)"
-            body = {unparse(n.targets[0]) if isinstance(n, ast.Assign) else unparse(n.target) + "+=": n.value for n in lp.body if isinstance(n, (ast.Assign, ast.AugAssign))}
-            tv = [unparse(x) for x in lp.target.elts] if isinstance(lp.target, ast.Tuple) else ["?", "?"]
-            mdl, wt = tv
-            want_e = canon(ast.parse(f"{wt} * ({mdl}.est_p + outer(x_diff_est, x_diff_est))", mode="eval").body)
-            want_p = canon(ast.parse(f"{wt} * ({mdl}.pred_p + outer(x_diff_pred, x_diff_pred))", mode="eval").body)
-            ok_f = ok_zip and canon(body.get("self.est_p+=", ast.Constant(0))) == want_e and canon(body.get("self.pred_p+=", ast.Constant(0))) == want_p and unparse(body.get("x_diff_est", ast.Constant(0))) == f"{mdl}.est_x - self.est_x" and unparse(body.get("x_diff_pred", ast.Constant(0))) == f"{mdl}.pred_x - self.pred_x"
-            zeros_ok = any(isinstance(n, ast.Assign) and unparse(n.targets[0]) == "self.est_p" and call_name(n.value) == "zeros" and n.lineno < lp.lineno and n.lineno > s.lineno for n in walk_no_nested(cu.node))
-            ok_f = ok_f and zeros_ok
+        ok_f = True
+        for fld in ("pred_p", "est_p"):
+            a = accs.get(fld, [])
+            if len(a) != 1 or not a[0]["ok"]:
+                ok_f = False
+                continue
+            zs = [z for z in a[0]["zero"] if z.lineno > s.lineno]
+            if not zs:
+                ok_f = False
         if ok_f:
-            r.ok(cu.qualname + ":covariance", "P = sum w (P_i + (x_i - x)(x_i - x)^T), accumulated from zero", cu.loc())
+            r.ok(cu.qualname + ":covariance", "P = sum w (P_i + (x_i - x)(x_i - x)^T), accumulated from zero (predicted and estimated)", cu.loc())
         else:
             r.violation(cu.qualname + ":covariance", "mixture-covariance", "the combined covariance is not the moment-matched mixture sum w (P_i + (x_i - mean)(x_i - mean)^T) accumulated from zero", cu.loc())
 
@@ -666,7 +756,12 @@ def rule_r4(chk, p, t):
                 r.violation(f"{cls.qualname}.update:likelihood", f"likelihood:{unparse(lk[0].value)[:80]}", f"the model likelihood is `{unparse(lk[0].value)[:100]}`, expected `{want_l}` for model `num`", m.loc(lk[0]))
             if cls.name.startswith("Static"):
                 by = [n for n in walk_no_nested(m.node) if isinstance(n, ast.Assign) and isinstance(n.targets[0], ast.Subscript) and unparse(n.targets[0].value) == f"self.{W}"]
-                okb = len(by) == 1 and canon(by[0].value) == canon(ast.parse(f"self.{W}[num] * self.model_likelihoods[num]", mode="eval").body) and by[0].lineno > lk[0].lineno
+                aug = [n for n in walk_no_nested(m.node) if isinstance(n, ast.AugAssign) and isinstance(n.target, ast.Subscript) and unparse(n.target.value) == f"self.{W}"]
+                okb = len(by) == 1 and not aug and canon(by[0].value) == canon(ast.parse(f"self.{W}[num] * self.model_likelihoods[num]", mode="eval").body) and by[0].lineno > lk[0].lineno
+                if not by and len(aug) == 1:
+                    # `w[num] *= L[num]` is the same element update
+                    okb = isinstance(aug[0].op, ast.Mult) and unparse(aug[0].target.slice) == "num" and unparse(aug[0].value) == "self.model_likelihoods[num]" and aug[0].lineno > lk[0].lineno
+                    by = aug
                 if okb:
                     r.ok(f"{cls.qualname}.update:bayes", "w_i <- w_i * L_i (then renormalised)", m.loc(by[0]))
                 else:
@@ -827,13 +922,19 @@ def rule_r5(chk, p, t):
                     pc = self_call(cfg.nodes[prune_nodes[0]].ast, {"prune"})[0]
                     idx = inline_locals(m.node, pc.args[0]) if pc.args else None
                     sol = None
+                    exactly_one = False
                     for cid, lab in conds:
                         tst = inline_locals(m.node, cfg.nodes[cid].ast)
-                        if "argwhere" in unparse(tst) and lab is True:
-                            sol = tst
+                        if "argwhere" in unparse(tst):
+                            # `X.size == 1` taken, or `X.size != 1` not taken
+                            if isinstance(tst, ast.Compare) and len(tst.ops) == 1 and unparse(tst.comparators[0]) == "1" and unparse(tst.left).endswith(".size"):
+                                if (isinstance(tst.ops[0], ast.Eq) and lab is True) or (isinstance(tst.ops[0], ast.NotEq) and lab is False):
+                                    sol, exactly_one = tst, True
+                            elif lab is True:
+                                sol = tst
                     itxt = unparse(idx) if idx is not None else ""
                     stxt = unparse(sol) if sol is not None else ""
-                    comp = "self.model_weights < self.prune_percentage" in itxt and "self.model_weights >= self.prune_percentage" in stxt and ".size == 1" in stxt
+                    comp = "self.model_weights < self.prune_percentage" in itxt and "self.model_weights >= self.prune_percentage" in stxt and exactly_one
                     if not comp:
                         bad.append("prune-set")
                         r.violation(cons, f"prune-set:{itxt[:60]}", f"closing prunes `{itxt[:80]}` under `{stxt[:80]}`: expected every model below the closing percentage when exactly one is at or above it, so that one model survives", m.loc(pc))
